@@ -39,6 +39,96 @@ CHECKS = {
              "theorem about the emulator); metadata completeness is checked on the files, not proved",
         technique="Lean 4 invariant proof (clock order + marker balance) over the buffer model + differential run + ovniemu acceptance",
         design="DESIGN.md §5 C02"),
+    "C03": dict(
+        text=("Theorems (Props/C03.lean, 24): heap.h insert/pop (value-tree model with the same comparisons in the same order) "
+              "keep the complete-tree shape, heap order and multiset and never reach die(); pop returns a maximum "
+              "(heap_insert_inv, heap_pop_inv, pop_is_max, heap_ops_never_die; all sizes); the player (init + re-insert/pop "
+              "loop + update_clocks) emits a permutation of all events (replay_perm), each stream in order "
+              "(replay_stream_order), sclock = clock + host offset (replay_clock), non-decreasing for sorted streams and "
+              "always when ovniemu does not reject (replay_sorted, replay_sorted_or_rejected), dclock = sclock - first sclock "
+              "(dclock_def); it never fails on sorted streams with non-negative first corrected clock passing the clock gate, "
+              "never in ovnidump mode, and rejects only through its guards (replay_total, replay_total_unsorted, "
+              "replay_rejects_only_by_guards); trace_load's sort makes the result independent of the enumeration order for "
+              "every offset table (enumeration_independent, dump_/emu_enumeration_independent). Tie: the real heap.h in an "
+              "ASan/UBSan harness vs the Lean heap (random + bounded-exhaustive scripts with many equal keys, every line "
+              "diffed), ovnidump's exact line order and ovniemu's thread.prv (row,time) order vs the Lean player on generated "
+              "multi-loom traces with offset tables, empty streams and shuffled directory creation, plus independent merge/"
+              "heap oracles. Known finding: a negative first corrected clock is refused."),
+        note=TB + "; heap pointers modelled as a value tree; streams as decoded event lists; int64 clocks as unbounded Int "
+             "(no overflow); DL_SORT stable; ovniemu's order observed through the type-4 PRV records",
+        technique="Lean 4 data-structure invariants + refinement of the player to an abstract merge + differential runs (C harness, ovnidump, ovniemu)",
+        design="DESIGN.md §5 C03"),
+    "C07": dict(
+        text=("Theorems (Props/C07.lean, 12) over a transcription of body.c/task.c (one branch per C guard, in order) and of the "
+              "nOS-V / Nanos6 update_task layer, against a life-cycle specification written independently: the model accepts a "
+              "history of task API calls IFF every step is legal in the specification (created -> running -> (paused <-> "
+              "running)* -> dead, top of stack only, nesting only over a paused body unless relaxed, parallel tasks with several "
+              "bodies that cannot pause, resurrection only with the flag) for any number of tasks, bodies, stacks and all flag "
+              "sets (task_accept_iff); a body is on at most one stack exactly while running or paused (body_unique_thread, "
+              "running_body_has_thread, nested_over_paused); the event-level version for both models including body-id rules, "
+              "task id != 0 and the ST_TASK_BODY push/pop (event_accept_iff, event_body_unique_thread); while a body runs the "
+              "thread's task channels are (task id, type gid, body id, app id, rank+1), null otherwise (task_view, "
+              "task_view_nosv); lint acceptance (lint_accept_iff, lint_all_ended); no table event pushes ST_TASK_BODY "
+              "(table_events_clean, decide over regenerated tables). Tie: the real task.c/body.c in an ASan/UBSan harness "
+              "(struct body dumped after every op) vs the Lean model on bounded-exhaustive (state, op) pairs and random "
+              "histories; `ovniemu -l` on random nOS-V/Nanos6 histories with single illegal mutations: verdict, refused-event "
+              "position and thread.prv types 10,11,12,14,15 / 35,36,38 vs the model, a documentation-derived reference "
+              "automaton and a PRV oracle. Found and repaired: Nanos6 refused a legal nested execute (29aa1a0)."),
+        note=TB + "; uthash tables as finite maps; label hash computed in Python and cross-checked with the harness; one model "
+             "instance per process; e2e keeps threads running (tracking muxes are C06's subject); ST_TASK_BODY values hand-copied",
+        technique="Lean 4 simulation (both directions) between the task.c model and an independent life-cycle spec + differential runs",
+        design="DESIGN.md §5 C07"),
+    "C08": dict(
+        text=("Theorems (Props/C08.lean, 21) over the transcription of chan_push/chan_pop/chan_flush: a history of enter/leave "
+              "events on a channel is accepted by the channel machinery IFF it is properly nested (leave matches the "
+              "innermost open region, depth <= limit, and without ALLOW_DUP no re-entry of the innermost region) "
+              "(nesting_accept_iff, unbounded length, any depth limit); hence every properly nested non-re-entering history "
+              "is accepted on every channel (nonreentering_accepted); the row shows the innermost open region "
+              "(view_is_top); lint rejects open regions and finish accepts iff all threads dead and nothing open "
+              "(lint_open_rejected, finish_ok_iff). Whole-table `decide` facts over the tables REGENERATED from /repo each run: "
+              "every enter has a leave with the same channel and value, distinct regions of a channel have distinct values, "
+              "every value has a PCF label, actions/channel types are consistent, and the tables still equal the committed "
+              "documented mapping event->(channel, action, value, label) (table_matches_documented). Tie: regenerated tables; "
+              "e2e: per model random nested words with single mismatches, wrong thread states, open regions at the end and "
+              "depths 511..513, real ovniemu -l vs the Lean reference emulator (verdict, failing event, every model row) and "
+              "vs an independent Python oracle that recomputes every row from the history with the documented mapping."),
+        note=TB + "; thread-state preconditions and the per-model dispatch are hand-modelled in Emu/Core.lean and tied by the "
+             "e2e correspondence; the kernel model's two events are a hand-written table",
+        technique="Lean 4 iff theorem over the channel stack model + whole-table decide over regenerated tables + differential ovniemu runs",
+        design="DESIGN.md §5 C08"),
+    "C12": dict(
+        text=("Theorems (Props/C12.lean, 18) over a byte-level model of check_stream_header / load_obs / stream_step with the exact C "
+              "integer casts and ARBITRARY memory beyond the file: valid streams are accepted (non-vacuity); any single header "
+              "byte replaced by any other value, and files shorter than 8 bytes, are refused (bad_header_rejected, "
+              "short_header_rejected); a cut strictly inside the last event is refused (Fixed.truncation_rejected, full strength "
+              "for the code after the repair db50cd1; truncation_not_rejected keeps the decide witness for the code before it); "
+              "two adjacent events with different clocks exchanged anywhere are refused (swap_rejected); the metadata gates as "
+              "decision logic: checkStream accepts iff the spelled-out conjunction, each mandatory key missing or altered is "
+              "refused (thread_stream_spec, mandatory_key_rejected, trace_key_rejected); events of a model that is not required "
+              "and wrong payload sizes of size-checked events are refused (unrequired_model_rejected, "
+              "wrong_payload_size_rejected); the sticky is_jumbo of the old emu_ev is kept as a witness. Tie: the real stream.c "
+              "in an ASan harness vs the Lean cursor (every offset, accept/error, over-read), and `ovniemu -l` on every single "
+              "corruption of generated valid traces (thorough: all 255 wrong values of each header byte, every cut, every "
+              "adjacent swap, every mandatory key): exit != 0 and no 'emulation finished ok'."),
+        note=TB + "; int = 32-bit wrap, int64 offsets unbounded; metadata is logic over what the parson getters return (parson "
+             "assumed); unknown MCV inside an enabled model and handler size guards are carried by the e2e correspondence",
+        technique="Lean 4 theorems over a byte-level cursor with adversarial out-of-file memory + single-corruption differential runs",
+        design="DESIGN.md §5 C12"),
+    "C13": dict(
+        text=("Theorems (Props/C13.lean, 16) over the Paraver writer model (prv_advance guard, lines written at the current "
+              "time, header rewritten at close) and the record generation of the reference emulator: for every accepted "
+              "sequence of steps the lines are in non-decreasing time order, none is later than the header duration, which is "
+              "the clock of the last step (prv_times_monotone), a backwards step is refused; every record belongs to the row "
+              "gindex+1 of an existing thread/CPU and its type is one of the types declared in the matching .pcf "
+              "(records_rows_types, with specs_consistent by decide over regenerated specs); table/initial/default values are "
+              "labelled (init_values_labelled + C08 tables_labelled); the .row file has one name per row. Tie: on every "
+              "accepted generated trace independent Python parsers check thread/cpu .prv/.pcf/.row (time order, row range, "
+              "duration = last event time, types declared, state values labelled, row names in documented order) and the "
+              "timelines equal the Lean reference emulator's. Found and repaired: cpu.pcf did not declare CPU types 1,2,3."),
+        note=TB + "; PCF contents and row names are checked on the files (oracle), the model states which types are declared; "
+             "task-type and mark labels (dynamic) are covered by C07/C17",
+        technique="Lean 4 invariant proof over the PRV writer + record typing lemma + independent parsers on ovniemu output",
+        design="DESIGN.md §5 C13"),
     "C14": dict(
         text=("Theorems (Props/C14.lean, 22): compatibility iff same major and minor<=; well-formed a.b.c[-suffix] "
               "parses to (a,b,c); NULL, >=64 chars, missing field, non-numeric field, negative field are refused; "
@@ -51,6 +141,96 @@ CHECKS = {
         note=TB + "; strtol/strtok_r/isspace semantics (glibc, C locale) are modelled; parson returns strings unchanged",
         technique="Lean 4 theorems over a transcription of version.h/model.c + differential correspondence (C harness, ovniemu)",
         design="DESIGN.md §5 C14"),
+    "C15": dict(
+        text=("Theorems (Props/C15.lean, 23) over a transcription of trace_load's relpath sort + system_init (create_loom/proc/"
+              "thread, load_cpus with its index/phyid conflict detection, load_appid, load_rank, set_sort_criteria, sort_lpt, "
+              "loom_sort, proc_sort, global lists and indices, row names): permuting the streams gives the identical result "
+              "(build_enum_order_invariant); the same union of metadata, however distributed over the threads of a process / "
+              "loom, gives the same hierarchy, order and rows or both fail (build_perm_invariant_fixed, full strength for the "
+              "code after the repair f0b14dc; build_perm_invariant_partial/_safe for the code before it, whose crash is kept "
+              "as `decide` witnesses crash_witness_*); looms by name or minimum rank, processes by rank or pid, threads by "
+              "tid, CPUs by phyid with the virtual CPU last (order_spec, threadRows_spec, cpuRows_spec, hier_content); every "
+              "listed contradiction is refused with an error, never accepted, never a crash (conflicts_refused_fixed, "
+              "conflicts_never_accepted, create_error_has_conflict). Tie: real ovniemu on metamorphic variants of random "
+              "worlds (attributes moved between threads, CPU lists split/shuffled/duplicated, creation order shuffled, "
+              "directories renamed), all single contradictions and bounded-exhaustive CPU-list pairs vs the Lean model "
+              "(drv_system) and vs rows computed in Python from the world alone; never a signal."),
+        note=TB + "; JSON numbers are int-range integers; uthash insertion order and stable HASH_SORT/DL_SORT are modelled; "
+             "stream loading, metadata version check and model probing are outside this model",
+        technique="Lean 4 refinement of system_init to a function of the metadata union + metamorphic differential runs of ovniemu",
+        design="DESIGN.md §5 C15"),
+    "C16": dict(
+        text=("Theorems (Props/C16.lean, 18) over a transcription of ovnisort.c (ring arithmetic, find_destination, OU[/OU] region "
+              "automaton, execute_sort_plan with an abstract qsort, ring_check, -c mode): under the explicit decidable "
+              "preconditions (only marked regions unsorted, destination within the look-back window, clocks < 2^63) the run "
+              "succeeds, keeps the total size, outputs a permutation of the input events with bytes unchanged and "
+              "non-decreasing clocks (winsort_ok), and success holds exactly when the window condition holds (status_ok_iff); "
+              "the output is a permutation in every outcome (permutation_always); everything before the first executed plan "
+              "is untouched (prefix_untouched, prefix_bytes_untouched); with a stable qsort equal clocks keep their order and "
+              "the result equals a stable sort of the whole stream (equal_clock_order_preserved, winsort_eq_stable_sort); a "
+              "sorted stream is returned unchanged (idempotent); -c passes exactly on sorted non-empty streams and the "
+              "emulator's clock test accepts the result (streamCheck_iff, check_passes, emulator_accepts_sorted); no "
+              "destination means an error, never success (fails_loudly). Tie: the real ovnisort [-n N], ovnisort -c, a "
+              "second ovnisort run and ovniemu -l on Python-written streams, byte-compared with the Lean model (drv_ovnisort) "
+              "and checked by an independent stable-sort oracle; thorough adds all streams of <= 4 events."),
+        note=TB + "; qsort is a parameter (sorted permutation; stability a named hypothesis, satisfied by insertion sort and by "
+             "glibc's merge sort); -n 0 out of scope; the private mapping observes the tool's own pwrite",
+        technique="Lean 4 refinement of the window sort to a stable sort + byte-exact differential runs of ovnisort",
+        design="DESIGN.md §5 C16"),
+    "C17": dict(
+        text=("Theorems (Props/C17.lean, 17): the runtime refuses ovni_mark_type / ovni_mark_label exactly for a type outside "
+              "[0,100), empty title/label, redefinition, value <= 0, undefined type or relabelled value "
+              "(markType_refused_iff, markLabel_refused_iff), push/pop/set refuse value 0; the emulator's merge refuses a "
+              "definition whose title or channel type disagrees with the table, a different label for a labelled value, and "
+              "malformed definitions, keeps agreeing duplicates, and an error is final (title_/ctype_/label_conflict_refused, "
+              "label_agree_merges, malformed_refused, parseMarks_error_final); mark_event refuses wrong payload size, "
+              "undefined type, zero value, push on single / set on stack, mismatched pop (mark_event_guards, "
+              "wrong_op_refused, mismatched_pop_refused via C08); every mark type is a channel with Paraver type 100+type "
+              "shown on the thread row while the thread is active and on the CPU row of the unique running thread "
+              "(mark_channel_spec, mark_thread_view, mark_cpu_view). Order independence of the merge is shown on concrete "
+              "instances only (examples), not as a general theorem. Tie: (A) real libovni (ASan/UBSan harness) vs the Lean "
+              "runtime model on random mark programs: abort/return and the ovni.mark metadata written; (B) independent "
+              "Python-written traces with per-thread definitions and single conflicts, mark events interleaved with state "
+              "changes: real ovniemu -l vs the Lean reference emulator (verdict, failing event, rows 100..199, PCF titles "
+              "and labels) and vs an independent oracle. Known finding: label values beyond C int (see KNOWN_FINDINGS.txt)."),
+        note=TB + "; JSON decoding of the metadata (parson) is outside the model; the general permutation-invariance of the merge "
+             "is covered by the correspondence (threads defined in random orders), not by a theorem",
+        technique="Lean 4 guard/merge theorems over transcriptions of the mark API and mark.c + differential runs of libovni and ovniemu",
+        design="DESIGN.md §5 C17"),
+    "C19": dict(
+        text=("Theorems (Props/C19.lean, 17) over the same byte-level cursor, for ALL byte strings: for the code after the repair "
+              "db50cd1 every successful stream_step advances the offset by at least 12 and stays within the file, so the "
+              "loop ends within size/12+1 calls (Fixed.cursor_progress, Fixed.terminates), every read lies inside [0,size) "
+              "(Fixed.reads_in_bounds), the verdict and the reads do not depend on memory beyond the file "
+              "(Fixed.garbage_independent), print_arg reads are guarded (Fixed.print_reads_guarded); for the code before the "
+              "repair the negations are proved with decide witnesses (never_terminates, not_cursor_progress, "
+              "reads_out_of_bounds_header/_negative, not_reads_in_bounds, print_null_payload) and the _partial theorems hold "
+              "under the explicit decidable guard. Tie: the real stream.c in an ASan/UBSan harness vs the cursor on thousands "
+              "of mutated streams (every offset, over-read, overflow, hang predicted and observed); structure-aware mutants "
+              "(size fields, flags, truncation, payload shapes, JSON types) through ovniemu, ovnidump, ovnitop, ovnisort built "
+              "with ASan+UBSan and the OVNI_VERIF heap-buffer hook, 5 s timeout: exit 0 or 1 only. Seven defects found and "
+              "repaired (see KNOWN_FINDINGS.txt)."),
+        note=TB + "; PARTIAL BY NATURE: parson on arbitrary JSON, the die()->abort policy and everything behind the front end "
+             "(handlers, PCF writers) are covered only by the sanitizer runs, not by theorems",
+        technique="Lean 4 termination/bounds theorems over a byte-level cursor + sanitizer-instrumented mutation runs of the four tools",
+        design="DESIGN.md §5 C19"),
+    "C20": dict(
+        text=("Theorems (Props/C20.lean, 17): sort_replace = insertSorted . erase under its preconditions, hence sorted and an exact "
+              "multiset update (sort_replace_spec, sort_replace_sorted_multiset); after every history of input changes the sort "
+              "rows are non-decreasing and a permutation of the inputs (rows_are_sorted_values, for any qsort that returns a sorted "
+              "permutation, any n); an output is written iff its value changes, in increasing index order (minimal_writes, "
+              "writes_increasing, no_change_no_write); the breakdown value fed to the sort equals spec(subsystem, task type, idle) "
+              "whenever mux0's selection is fresh, with the freshness side condition explicit and the only two stale classes "
+              "characterised (breakdown_value, fresh_after_ss, fresh_preserved_iff, stale_select_classes); per-CPU dirty-order "
+              "theorem dirty_level_ordered_partial (global registration order not modelled: OPEN); system_rows: rows = "
+              "sorted(per-CPU values). Tie: the real sort.c and the real nosv/nanos6 breakdown.c (connect_cpu, select_tr, "
+              "select_idle) in an ASan/UBSan harness, bounded-exhaustive + random, vs the Lean model and a property oracle; "
+              "`ovniemu -b -l` on random nOS-V/Nanos6 traces vs an oracle recomputed from cpu.prv and vs the model. Four "
+              "known findings (stale mux0 selection), see KNOWN_FINDINGS.txt."),
+        note=TB + "; qsort assumed to return a sorted permutation; the CPU-channel dirty order is a hypothesis checked by the "
+             "correspondence; the projection of the global walk onto one CPU is checked at run time, not proved",
+        technique="Lean 4 refinement/invariant theorems over sort.c and the breakdown muxes + differential runs (C harness, ovniemu -b)",
+        design="DESIGN.md §5 C20"),
 }
 
 NOT_YET = "check not built yet in this round (model and correspondence in progress; see DESIGN.md §5)"
@@ -66,7 +246,7 @@ def main():
             "guard": "OVNI_VERIF",
             "enable": "checks build /repo's working tree with cmake -DCMAKE_C_FLAGS=-DOVNI_VERIF (checks/lib/vcommon.py: repo_build)",
             "baseline_off_cmd": "cmake -G Ninja -S /repo -B /repo/_build >/dev/null && cmake --build /repo/_build >/dev/null && ctest --test-dir /repo/_build -j8 --timeout 900",
-            "source_commits": [],
+            "source_commits": ["4d5b914"],
             "add_only": True,
         },
         "engines": [
